@@ -5,6 +5,7 @@ pub mod hist;
 pub mod hooks;
 pub mod proc;
 pub mod sandbox;
+pub mod sched;
 
 use serde_json::{json, Map, Value};
 use std::{
